@@ -394,6 +394,55 @@ def canonical_branches(tree: ast.AST) -> ast.AST:
             keep.append(st)
         if m:
             fn.body = [_Inline(m).visit(st) for st in keep] or [ast.Pass()]
+    # (g) `x = []` directly followed by `for t in it: [if c:] x.append(e)` is `x = [e for t in it if c]`; likewise `x = {}` and `x[k] = v`
+    def comp_fold(body: List[ast.stmt]) -> List[ast.stmt]:
+        out: List[ast.stmt] = []
+        i = 0
+        while i < len(body):
+            st = body[i]
+            nxt = body[i + 1] if i + 1 < len(body) else None
+            done = False
+            if isinstance(st, ast.Assign) and len(st.targets) == 1 and isinstance(st.targets[0], ast.Name) and isinstance(nxt, ast.For) and not nxt.orelse \
+                    and ((isinstance(st.value, ast.List) and not st.value.elts) or (isinstance(st.value, ast.Dict) and not st.value.keys)):
+                x = st.targets[0].id
+                ifs = []
+                b = nxt.body
+                while True:
+                    if len(b) == 1 and isinstance(b[0], ast.If) and not b[0].orelse:
+                        ifs.append(b[0].test)
+                        b = b[0].body
+                    elif len(b) >= 2 and isinstance(b[0], ast.If) and not b[0].orelse and len(b[0].body) == 1 and isinstance(b[0].body[0], ast.Continue):
+                        ifs.append(negate(b[0].test))          # the guard form of the same filter
+                        b = b[1:]
+                    else:
+                        break
+                if len(b) == 1 and not any(isinstance(y, ast.Name) and y.id == x for t_ in [nxt.iter] + ifs for y in ast.walk(t_)) \
+                        and not any(isinstance(y, (ast.Yield, ast.YieldFrom, ast.Await, ast.NamedExpr)) for y in ast.walk(nxt)):
+                    leaf = b[0]
+                    gen = ast.comprehension(target=nxt.target, iter=nxt.iter, ifs=ifs, is_async=0)
+                    if isinstance(st.value, ast.List) and isinstance(leaf, ast.Expr) and isinstance(leaf.value, ast.Call) \
+                            and isinstance(leaf.value.func, ast.Attribute) and leaf.value.func.attr == "append" and isinstance(leaf.value.func.value, ast.Name) \
+                            and leaf.value.func.value.id == x and len(leaf.value.args) == 1 and not leaf.value.keywords \
+                            and not any(isinstance(y, ast.Name) and y.id == x for y in ast.walk(leaf.value.args[0])):
+                        st.value = ast.copy_location(ast.ListComp(elt=leaf.value.args[0], generators=[gen]), nxt)
+                        done = True
+                    elif isinstance(st.value, ast.Dict) and isinstance(leaf, ast.Assign) and len(leaf.targets) == 1 and isinstance(leaf.targets[0], ast.Subscript) \
+                            and isinstance(leaf.targets[0].value, ast.Name) and leaf.targets[0].value.id == x \
+                            and not any(isinstance(y, ast.Name) and y.id == x for y in list(ast.walk(leaf.value)) + list(ast.walk(leaf.targets[0].slice))):
+                        st.value = ast.copy_location(ast.DictComp(key=leaf.targets[0].slice, value=leaf.value, generators=[gen]), nxt)
+                        done = True
+            out.append(st)
+            i += 2 if done else 1
+        return out
+    for node in ast.walk(tree):
+        for fld in ("body", "orelse", "finalbody"):
+            b = getattr(node, fld, None)
+            if isinstance(b, list) and b and isinstance(b[0], ast.stmt):
+                setattr(node, fld, comp_fold(b))
+        if isinstance(node, ast.Try):
+            for h in node.handlers:
+                h.body = comp_fold(h.body)
+
     # (d) `n = <call>` immediately followed by `for t in n:` with n used nowhere else is `for t in <call>:`
     for fn in [x for x in ast.walk(tree) if isinstance(x, (ast.FunctionDef, ast.AsyncFunctionDef))]:
         loads: Dict[str, int] = {}
